@@ -156,10 +156,66 @@ fn explore_splits(ctx: &Arc<Ctx>, kivs: Vec<(String, String)>, tmax: usize, zmax
     ctx.cov(label, json!({"key_iv_pairs": kv.len(), "max_total_words": tmax, "max_empty_requests": zmax, "unique_states": st.unique_states, "generated": st.generated, "max_depth": st.max_depth}));
 }
 
+/// request sizes around the register length (16 cells) and its multiples, in every sequence of up to `depth` requests
+const BIG_SIZES: [u16; 9] = [15, 16, 17, 21, 31, 32, 33, 47, 64];
+fn explore_big(ctx: &Arc<Ctx>, kivs: Vec<(String, String)>, depth: usize) {
+    let c2 = ctx.clone();
+    let kv = Arc::new(kivs);
+    let kv2 = kv.clone();
+    let model = HistModel {
+        batch: 64,
+        inits: (0..kv.len() as u16).map(|i| vec![i]).collect(),
+        actions: Box::new(move |h: &[u16]| if h.len() - 1 < depth { let mut a = BIG_SIZES.to_vec(); a.push(0); a.push(3); a } else { vec![] }),
+        visit: Arc::new(move |h: &[u16]| {
+            if h.len() < 3 {
+                return;
+            }
+            let (k, v) = &kv2[h[0] as usize];
+            let sizes: Vec<usize> = h[1..].iter().map(|x| *x as usize).collect();
+            let c = Case::History { key: k.clone(), iv: v.clone(), sizes };
+            eval(&c2, &c);
+            prefix_push(serde_json::to_value(&c).unwrap());
+        }),
+    };
+    let st = explore(model);
+    ctx.cov("long_request_sequence_model", json!({"key_iv_pairs": kv.len(), "sizes": BIG_SIZES, "plus": [0, 3], "max_requests": depth, "unique_states": st.unique_states, "generated": st.generated}));
+}
+
+/// `gmverif tool search-zuc`: key/IV pairs for which the LFSR feedback is 0 mod 2^31-1 in WORK mode within the first 64
+/// words (the s16 = 0 -> 2^31-1 replacement outside initialisation); writes corpus/zuc_s16_zero_work.json
+pub fn search_s16_zero_work() {
+    use rayon::prelude::*;
+    use std::sync::atomic::{AtomicU64, Ordering};
+    let found = AtomicU64::new(0);
+    let out = std::sync::Mutex::new(Vec::<Value>::new());
+    (0..(1u64 << 16)).into_par_iter().for_each(|c| {
+        if found.load(Ordering::Relaxed) >= 3 {
+            return;
+        }
+        for i in 0..(1u64 << 12) {
+            let ctr = (c << 12) | i;
+            let mut k = [0u8; 16];
+            k[..8].copy_from_slice(&ctr.to_be_bytes());
+            k[15] = 0x5a;
+            let iv: [u8; 16] = core::array::from_fn(|j| (j as u8).wrapping_mul(17));
+            let mut z = zuc::Zuc::with_cov(&k, &iv);
+            let init_hits = z.cov.as_ref().map(|c| c.s16_zero).unwrap_or(0);
+            let _ = z.words(64);
+            let hits = z.cov.as_ref().map(|c| c.s16_zero).unwrap_or(0);
+            if hits > init_hits && found.fetch_add(1, Ordering::Relaxed) < 3 {
+                eprintln!("found work-mode s16 = 0 for key {}", hex::encode(k));
+                out.lock().unwrap().push(json!({"key": hex::encode(k), "iv": hex::encode(iv)}));
+                let _ = std::fs::write(format!("{}/corpus/zuc_s16_zero_work.json", VERIF_ROOT), serde_json::to_string_pretty(&*out.lock().unwrap()).unwrap());
+            }
+        }
+    });
+    eprintln!("done: {}", out.lock().unwrap().len());
+}
+
 pub fn run(ctx: &Arc<Ctx>) {
     refmodels::selftest::run(&["zuc"]).unwrap_or_else(|e| ctx.machinery_error(format!("reference self-test failed: {}", e)));
     let zmax = ctx.tier.pick(1usize, 2);
-    ctx.set_rule("stateright BFS over request histories on the real generator: every composition of every total <= 12 words with every placement of up to Zmax empty requests, per key/IV in {0/0, FF/FF, official vector 3, 2 seeded}; thorough adds the 256 single-bit keys and IVs with total <= 4. Invariant in every state: concatenation of returned words = reference keystream prefix and each request returns exactly the number of words asked. Crafted key/IV pairs whose first initialisation round has LFSR feedback = 0 mod 2^31-1 (the s16=0 replacement). Long streams: 2^16 words in one request and in 2^8 equal requests. Oracle: independent ZUC (u64 arithmetic mod 2^31-1, generated S-boxes) pinned by the three official vectors.");
+    ctx.set_rule("stateright BFS over request histories on the real generator: every composition of every total <= 12 words with every placement of up to Zmax empty requests, per key/IV in {0/0, FF/FF, official vector 3, 2 seeded}; thorough adds the 256 single-bit keys and IVs with total <= 4. Invariant in every state: concatenation of returned words = reference keystream prefix and each request returns exactly the number of words asked. Crafted key/IV pairs whose first initialisation round has LFSR feedback = 0 mod 2^31-1 (the s16=0 replacement). Every sequence of up to 3 (thorough 4) requests over sizes {0,3,15,16,17,21,31,32,33,47,64} (requests longer than the 16-cell register). Pre-searched key/IV pairs whose feedback is 0 in work mode. Long streams: 2^16 words in one request and in 2^8 equal requests. Oracle: independent ZUC (u64 arithmetic mod 2^31-1, generated S-boxes) pinned by the three official vectors.");
     ctx.note_bound(format!("T={} Zmax={}", ctx.tier.pick(12, 14), zmax));
     let tmax = ctx.tier.pick(12usize, 14);
     explore_splits(ctx, key_ivs(ctx), tmax, zmax, tmax, "split_model");
@@ -192,6 +248,29 @@ pub fn run(ctx: &Arc<Ctx>) {
         crafted.truncate(8);
         explore_splits(ctx, crafted, 4, 1, 4, "crafted_s16_zero_model");
     }
+    // sequences of requests that are longer than the 16-cell register
+    explore_big(ctx, key_ivs(ctx), ctx.tier.pick(3usize, 4));
+    ctx.sample(json!({"History": {"key": "00".repeat(16), "iv": "00".repeat(16), "sizes": [21, 0, 33]}}));
+    // pre-searched key/IV pairs whose LFSR feedback is 0 mod 2^31-1 in work mode within the first 64 words
+    {
+        let pairs: Vec<(String, String)> = std::fs::read_to_string(format!("{}/corpus/zuc_s16_zero_work.json", VERIF_ROOT)).ok().and_then(|t| serde_json::from_str::<Value>(&t).ok()).and_then(|v| v.as_array().cloned()).unwrap_or_default().iter().map(|e| (e["key"].as_str().unwrap().to_string(), e["iv"].as_str().unwrap().to_string())).collect();
+        let mut confirmed = 0;
+        for (k, v) in &pairs {
+            let mut z = zuc::Zuc::with_cov(&h16(k), &h16(v));
+            let init = z.cov.as_ref().map(|c| c.s16_zero).unwrap_or(0);
+            let _ = z.words(64);
+            if z.cov.as_ref().map(|c| c.s16_zero).unwrap_or(0) > init {
+                confirmed += 1;
+            }
+            for sizes in [vec![64usize], vec![20, 44], vec![1; 64]] {
+                eval(ctx, &Case::History { key: k.clone(), iv: v.clone(), sizes });
+            }
+        }
+        ctx.cov("key_iv_pairs_hitting_s16_zero_in_work_mode", json!({"in_corpus": pairs.len(), "confirmed_by_reference_branch_counter": confirmed}));
+        if pairs.is_empty() || confirmed != pairs.len() {
+            ctx.machinery_error(format!("corpus/zuc_s16_zero_work.json: {} pairs, {} confirmed", pairs.len(), confirmed));
+        }
+    }
     let (k, v) = key_ivs(ctx)[3].clone();
     let long_total = 1usize << 16;
     for parts in [1usize, 1 << 8] {
@@ -201,6 +280,6 @@ pub fn run(ctx: &Arc<Ctx>) {
     }
     let (k, v) = key_ivs(ctx)[2].clone();
     eval(ctx, &Case::Long { key: k, iv: v, total: long_total, parts: 16 });
-    ctx.assume("the LFSR s16 == 0 replacement is forced only in the first initialisation round (crafted key/IV pairs, confirmed by the reference's branch counter); in later rounds and in work mode it cannot be forced from outside");
+    ctx.assume("the LFSR s16 == 0 replacement is exercised in the first initialisation round (crafted key/IV pairs) and in work mode (pre-searched key/IV pairs), both confirmed by the reference's branch counter; other rounds only by chance");
     crate::cold::check(ctx, "C08");
 }
